@@ -2,7 +2,7 @@
 # usage: tools/mutation_matrix.sh [dir...]  — applies every seeded patch (in a scratch worktree of /repo's HEAD) and runs the
 # quick check(s) of its property (plus extra checks listed below); prints one line per (patch, check)
 cd /verif
-extra() { case "$1" in C16r12) echo "C16 C17";; C18r12) echo "C18";; C14r12) echo "C14";; C17r12) echo "C17 C13";; C10r12) echo "C10 C11 C07";; C05r12) echo "C05 C04";; C15r12) echo "C15";; C09r12) echo "C09 C08";; C11r12) echo "C11 C02";; C06r12) echo "C06 C05";; C20r12) echo "C20 C01";; C12r12) echo "C12 C06";; C13r12) echo "C13 C17";; C01r12) echo "C01 C03";; C02r12) echo "C02 C05 C11";; C03r12) echo "C03 C15";; C04r12) echo "C04";; C07r12) echo "C07 C16";; C08r12) echo "C08 C01";; C19r12) echo "C19 C07";; C01r11) echo "C01 C08";; C02r11) echo "C02 C08";; C03r11) echo "C03 C10 C01";; C11r11) echo "C11 C02 C06";; C19r11) echo "C19";; C20r11) echo "C20 C02";; C04r11) echo "C04";; C05r11) echo "C05 C12";; C06r11) echo "C06 C10";; C07r11) echo "C07 C17";; C08r11) echo "C08 C18";; C09r11) echo "C09";; C10r11) echo "C10 C18";; C12r11) echo "C12 C06";; C13r11) echo "C13";; C14r11) echo "C14 C15";; C15r11) echo "C15";; C16r11) echo "C16 C15";; C17r11) echo "C17";; C18r11) echo "C18";; C02r10) echo "C02 C05 C06";; C11r10) echo "C11 C05";; C20r10) echo "C20";; C01r10) echo "C01 C03";; C03r10) echo "C03 C01";; C04r10) echo "C04 C18";; C05r10) echo "C05 C11";; C06r10) echo "C06 C02";; C07r10) echo "C07 C16";; C08r10) echo "C08 C02 C10";; C09r10) echo "C09";; C10r10) echo "C10 C06";; C12r10) echo "C12 C02";; C13r10) echo "C13 C07";; C14r10) echo "C14";; C15r10) echo "C15";; C16r10) echo "C16 C07";; C17r10) echo "C17";; C18r10) echo "C18 C10";; C19r10) echo "C19 C02";; C03r9) echo "C03 C10 C08";; C02r9) echo "C02 C17";; C20r9) echo "C20 C01 C08";; C19r9) echo "C19 C07";; C12r9) echo "C12 C07";; C04r9) echo "C04 C02";; C05r9) echo "C05 C17";; C06r9) echo "C06 C04 C09";; C07r9) echo "C07 C02";; C08r9) echo "C08 C07";; C09r9) echo "C09 C05";; C10r9) echo "C10 C08";; C11r9) echo "C11 C07";; C13r9) echo "C13 C14";; C15r9) echo "C15 C16";; C16r9) echo "C16 C13";; C17r9) echo "C17 C02";; C18r9) echo "C18 C01";; C01r9) echo "C01 C17";; C01r8) echo "C01 C16";; C02r8) echo "C02 C17";; C03r8) echo "C03 C01";; C07r8) echo "C07 C02";; C11r8) echo "C11 C07";; C12r8) echo "C12 C16 C07";; C20r8) echo "C20 C01";; C04r8) echo "C04 C03";; C19r8) echo "C19 C07 C12";; C08r8) echo "C08 C10";; C15r8) echo "C15 C06";; C18r8) echo "C18 C10";; C06r8) echo "C06 C05 C04";; C17r8) echo "C17 C16";; C01r5) echo "C01 C07 C16";; C01r7) echo "C01 C02";; C01*) echo "C01 C18";; C08r3) echo "C08 C01 C03";; C08r6) echo "C08 C11";; C08r7) echo "C08 C01 C03";; C08*) echo "C08 C01";; C10) echo "C10 C18";; C05r2) echo "C05 C06";; C02r3) echo "C02 C07 C16";; C02r7) echo "C02 C05 C04";; C03r5) echo "C03 C13";; C03r7) echo "C03 C18";; C03*) echo "C03 C01";; C18) echo "C18 C01";; C07r4) echo "C07 C19";; C19r5|C19r6|C19r7) echo "C19 C07";; C20r5) echo "C20 C01 C03";; C20r6) echo "C20 C02";; C06r5) echo "C06 C05";; C06r6|C06r7) echo "C06 C10";; C12r7) echo "C12 C07";; *) echo "${1:0:3}";; esac; }
+extra() { case "$1" in C16r13) echo "C16 C07 C12";; C14r13) echo "C14";; C05r13) echo "C05 C10";; C09r13) echo "C09";; C11r13) echo "C11 C02";; C15r13) echo "C15";; C17r13) echo "C17";; C01r13) echo "C01 C02 C03";; C18r13) echo "C18 C04";; C02r13) echo "C02 C10 C06";; C03r13) echo "C03 C01 C08";; C04r13) echo "C04";; C06r13) echo "C06 C05";; C07r13) echo "C07 C16";; C08r13) echo "C08 C01";; C10r13) echo "C10";; C12r13) echo "C12 C19";; C13r13) echo "C13 C09";; C19r13) echo "C19 C07";; C20r13) echo "C20 C01";; C16r12) echo "C16 C17";; C18r12) echo "C18";; C14r12) echo "C14";; C17r12) echo "C17 C13";; C10r12) echo "C10 C11 C07";; C05r12) echo "C05 C04";; C15r12) echo "C15";; C09r12) echo "C09 C08";; C11r12) echo "C11 C02";; C06r12) echo "C06 C05";; C20r12) echo "C20 C01";; C12r12) echo "C12 C06";; C13r12) echo "C13 C17";; C01r12) echo "C01 C03";; C02r12) echo "C02 C05 C11";; C03r12) echo "C03 C15";; C04r12) echo "C04";; C07r12) echo "C07 C16";; C08r12) echo "C08 C01";; C19r12) echo "C19 C07";; C01r11) echo "C01 C08";; C02r11) echo "C02 C08";; C03r11) echo "C03 C10 C01";; C11r11) echo "C11 C02 C06";; C19r11) echo "C19";; C20r11) echo "C20 C02";; C04r11) echo "C04";; C05r11) echo "C05 C12";; C06r11) echo "C06 C10";; C07r11) echo "C07 C17";; C08r11) echo "C08 C18";; C09r11) echo "C09";; C10r11) echo "C10 C18";; C12r11) echo "C12 C06";; C13r11) echo "C13";; C14r11) echo "C14 C15";; C15r11) echo "C15";; C16r11) echo "C16 C15";; C17r11) echo "C17";; C18r11) echo "C18";; C02r10) echo "C02 C05 C06";; C11r10) echo "C11 C05";; C20r10) echo "C20";; C01r10) echo "C01 C03";; C03r10) echo "C03 C01";; C04r10) echo "C04 C18";; C05r10) echo "C05 C11";; C06r10) echo "C06 C02";; C07r10) echo "C07 C16";; C08r10) echo "C08 C02 C10";; C09r10) echo "C09";; C10r10) echo "C10 C06";; C12r10) echo "C12 C02";; C13r10) echo "C13 C07";; C14r10) echo "C14";; C15r10) echo "C15";; C16r10) echo "C16 C07";; C17r10) echo "C17";; C18r10) echo "C18 C10";; C19r10) echo "C19 C02";; C03r9) echo "C03 C10 C08";; C02r9) echo "C02 C17";; C20r9) echo "C20 C01 C08";; C19r9) echo "C19 C07";; C12r9) echo "C12 C07";; C04r9) echo "C04 C02";; C05r9) echo "C05 C17";; C06r9) echo "C06 C04 C09";; C07r9) echo "C07 C02";; C08r9) echo "C08 C07";; C09r9) echo "C09 C05";; C10r9) echo "C10 C08";; C11r9) echo "C11 C07";; C13r9) echo "C13 C14";; C15r9) echo "C15 C16";; C16r9) echo "C16 C13";; C17r9) echo "C17 C02";; C18r9) echo "C18 C01";; C01r9) echo "C01 C17";; C01r8) echo "C01 C16";; C02r8) echo "C02 C17";; C03r8) echo "C03 C01";; C07r8) echo "C07 C02";; C11r8) echo "C11 C07";; C12r8) echo "C12 C16 C07";; C20r8) echo "C20 C01";; C04r8) echo "C04 C03";; C19r8) echo "C19 C07 C12";; C08r8) echo "C08 C10";; C15r8) echo "C15 C06";; C18r8) echo "C18 C10";; C06r8) echo "C06 C05 C04";; C17r8) echo "C17 C16";; C01r5) echo "C01 C07 C16";; C01r7) echo "C01 C02";; C01*) echo "C01 C18";; C08r3) echo "C08 C01 C03";; C08r6) echo "C08 C11";; C08r7) echo "C08 C01 C03";; C08*) echo "C08 C01";; C10) echo "C10 C18";; C05r2) echo "C05 C06";; C02r3) echo "C02 C07 C16";; C02r7) echo "C02 C05 C04";; C03r5) echo "C03 C13";; C03r7) echo "C03 C18";; C03*) echo "C03 C01";; C18) echo "C18 C01";; C07r4) echo "C07 C19";; C19r5|C19r6|C19r7) echo "C19 C07";; C20r5) echo "C20 C01 C03";; C20r6) echo "C20 C02";; C06r5) echo "C06 C05";; C06r6|C06r7) echo "C06 C10";; C12r7) echo "C12 C07";; *) echo "${1:0:3}";; esac; }
 dirs="${@:-$(ls seeded)}"
 for d in $dirs; do
   [ -f seeded/$d/patch.diff ] || continue
